@@ -1,8 +1,9 @@
 """C20 — template autoescaping never emits unescaped data.
 
 Taint markers: every value produced by an expression/raw/module tag is
-`<Mk>&"'p` with a k unique to the tag (as str, bytes or an object whose str()
-is the marker).  The reference interpreter of vf/refs/tmpl.py (shared with C19)
+`<Mk>&"'p` with a k unique to the tag (as str, bytes, an object whose str()
+is the marker, or an instance of a builtin-type subclass / Enum whose str() is
+the marker), or a unique plain number checked against custom wrapping escapers.  The reference interpreter of vf/refs/tmpl.py (shared with C19)
 knows for every emission whether it is escaped (an escaping function is in
 effect for the *file that contains the tag*) or raw; the output of the real
 Template is scanned for both forms of every marker.
@@ -24,9 +25,12 @@ META = {
     "technique": "taint markers through generated multi-file templates; expected escaped/raw form per emission from a direct interpreter, output scanned for both forms",
     "level_text": ("Templates from the C19 generator biased towards include/extends/block/apply nesting with a different "
                    "autoescape setting per file (loader default, constructor argument, directive, custom escaping function "
-                   "from the namespace, None) emit uniquely numbered markers containing all five HTML specials as str, bytes "
-                   "and objects with a markup __str__; for every marker the number of escaped and raw occurrences in the "
-                   "real output must equal what the direct interpretation says."),
+                   "from the namespace, None) emit uniquely numbered markers containing all five HTML specials as str, bytes, "
+                   "objects with a markup __str__, and subclasses of int/float/complex/Fraction/Decimal/list/tuple/dict/str/"
+                   "bytes, int-mixin Enum and IntFlag members and exceptions whose str() is the marker; for every marker the "
+                   "number of escaped and raw occurrences in the real output must equal what the direct interpretation says. "
+                   "Plain int and float values are emitted as unique numbers: under an escaping function that transforms "
+                   "every input (wrapping custom functions) the function's result must appear once per escaped emission."),
     "level_note": ("Trusts vf/refs/tmpl.py (interpreter, printer, 5-entry escape table); apply functions are restricted to "
                    "content-preserving ones so markers survive; &#39; and &#x27; are both accepted; cases whose interpretation "
                    "ends in an exception are only counted."),
@@ -38,9 +42,9 @@ RULE = ("a case is a seed for the C19 generator in marker mode; non-trivial = at
 FLOORS = {"quick": 2500, "thorough": 250000}
 ASSUMPTIONS = ["reference interpreter and printer are correct", "all autoescape functions offered by the generator escape the five specials"]
 REQUIRED_COUNTERS = ["oracle_evals", "markers_checked", "escaped_expected", "raw_expected", "mixed_autoescape_cases",
-                     "apply_emits", "nonmain_file_emits"]
+                     "apply_emits", "nonmain_file_emits", "builtin_subclass_escaped_evals", "numeric_transformed_evals"]
 
-_MK = re.compile(r"mk[bo]?\((\d+)\)")
+_MK = re.compile(r"\b(mk[a-z]?)\((\d+)\)")
 
 
 def shards(tier, seed):
@@ -61,6 +65,41 @@ def esc_form(k):
 
 def raw_form(k):
     return tmpl.marker(k).encode()
+
+
+def check_numeric(ctx, built, it, got, k, e, where):
+    """A plain int/float value: its text holds no special character, so the escaped form differs from the text only
+    under an escaping function that transforms every input (myesc, tagesc: wrappers).  The escaped form is what the
+    function in effect for the tag's file returns for the text; it must occur once per escaped emission, and the
+    bare text nowhere else than in the expected emissions."""
+    fn = tmpl.MARKER_FNS["mkr" if e["value"] == "float" else "mkn"][0]
+    raw = str(fn(k)).encode()
+    auto = e["autoescape"]
+    escf = raw
+    if auto is not None and e["esc"]:
+        r = eval(auto, it.ns)(raw)
+        escf = r.encode("utf-8") if isinstance(r, str) else r
+    n_raw_total = got.count(raw)
+    if escf == raw:
+        ctx.count("numeric_plain_evals")
+        if n_raw_total != e["esc"] + e["raw"]:
+            ctx.violation(f"{where}/number/missing-or-extra", "a numeric value is not emitted the expected number of times",
+                          base.witness(built, marker=k, expected=e, found={"occurrences": n_raw_total}, got=got))
+        return
+    ctx.count("numeric_transformed_evals")
+    ne = got.count(escf)
+    want_total = e["esc"] * escf.count(raw) + e["raw"]
+    if ne == e["esc"] and n_raw_total == want_total:
+        return
+    if ne < e["esc"] and n_raw_total >= want_total:
+        found = "raw"                # the number is there, but not in the form the escaping function produces
+    elif n_raw_total < want_total:
+        found = "missing-or-altered"
+    else:
+        found = "extra"
+    ctx.violation(f"{where}/number/expected-escaped-found-{found}",
+                  "a numeric value does not appear in the form the escaping function in effect produces",
+                  base.witness(built, marker=k, expected=e, escaped_form=escf, found={"escaped": ne, "bare": n_raw_total}, got=got))
 
 
 def run_case(case, ctx):
@@ -95,7 +134,8 @@ def run_case(case, ctx):
         m = _MK.search(src)
         if not m:
             continue
-        k = int(m.group(1))
+        fn, k = m.group(1), int(m.group(2))
+        vclass = tmpl.MARKER_FNS[fn][1]
         role = ("child" if len(chain) > 1 else "main") if file == c["main"] else ("parent" if file in chain else "included")
         if file != c["main"]:
             ctx.count("nonmain_file_emits")
@@ -103,15 +143,22 @@ def run_case(case, ctx):
             ctx.count("apply_emits")
         kind = "raw-tag" if (not escaped and it.auto[file] is not None) else "expr"
         e = want.setdefault(k, {"esc": 0, "raw": 0, "role": role, "apply": in_apply, "kind": kind, "file": file,
-                                "autoescape": it.auto[file]})
+                                "autoescape": it.auto[file], "value": vclass, "numeric": fn in tmpl.NUMERIC_MARKERS})
         e["esc" if escaped else "raw"] += 1
         autos.add(it.auto[file] is None)
     if len(autos) > 1:
         ctx.count("mixed_autoescape_cases")
     for k, e in want.items():
         ctx.count("markers_checked")
+        ctx.count("value:" + e["value"])
         ctx.count("escaped_expected", e["esc"])
         ctx.count("raw_expected", e["raw"])
+        where = e["role"] + ("/apply" if e["apply"] else "") + "/" + e["kind"]
+        if e["numeric"]:
+            check_numeric(ctx, built, it, got, k, e, where)
+            continue
+        if e["value"] not in ("str", "bytes", "object") and e["esc"]:
+            ctx.count("builtin_subclass_escaped_evals")
         ne, nr = got.count(esc_form(k)), got.count(raw_form(k))
         if (ne, nr) == (e["esc"], e["raw"]):
             continue
@@ -124,7 +171,8 @@ def run_case(case, ctx):
         else:
             found = "extra"
         expect = "escaped" if e["esc"] else "raw"
-        where = e["role"] + ("/apply" if e["apply"] else "") + "/" + e["kind"]
+        if e["value"] not in ("str", "bytes", "object"):
+            where += "/builtin-subclass"     # (the exact class is in the witness; one key per shape, not per class)
         ctx.violation(f"{where}/expected-{expect}-found-{found}",
                       "a marker value does not appear in the form the per-file autoescape setting defines",
                       base.witness(built, marker=k, expected=e, found={"escaped": ne, "raw": nr}, got=got))
